@@ -22,6 +22,16 @@ def features(case, run, val):
     return f
 
 
+def case_gen(rng, k):
+    if k % 5 == 4: return gen.gen_parallel_case(rng, clean=False)
+    if k % 5 == 2: return gen.gen_nested_case(rng)
+    if k % 10 == 3:
+        # pairs with async_requests (a provider whose consumer may ask it for data during its step), also on delayed connections
+        case = gen.gen_case(rng, groups=(k % 20 == 3), asyncs=True, clean=1.0, maxn=4)
+        return gen.delay_async_edges(rng, case) if rng.random() < 0.7 else case
+    return gen.gen_case(rng, groups=True)
+
+
 def run(out, info, tier, seed):
     out.trusted_base = common.COMMON_TRUSTED + [
         'modelled by hand: sim_process/next_step_settled/wait_for_dependencies/step/get_outputs/notify_dependencies/advance_progress/'
@@ -30,7 +40,7 @@ def run(out, info, tier, seed):
         'theorem premise static_ok (shape facts + ancestors closure dominates every trigger path) is discharged per scenario by the table comparison, not yet by a closure theorem']
     out.assumptions = ['simulators are an oracle: any reply sequence (event list); delays compared have equal shape (convex group scenarios)']
     sched_check.sched_property(out, info, tier, seed, 'C01', KINDS, monitors.P_C01, gen_opts=dict(groups=True),
-                               case_gen=lambda rng, k: gen.gen_parallel_case(rng, clean=False) if k % 5 == 4 else gen.gen_nested_case(rng) if k % 5 == 2 else gen.gen_case(rng, groups=True),
+                               case_gen=case_gen,
                                ncases=(220, 2000), nontrivial=nontrivial, features=features,
                                extra_obligations=[('Sched.Inv (invariant preserved by every event)', 'Sched/Inv'),
                                                   ('Sched.Main (lifting to runs from the initial state)', 'Sched/Main')])
